@@ -65,6 +65,10 @@ def session(draw):
     if drop:
         plan.insert(draw(st.integers(0, len(plan))), {'do': 'drop', 'how': drop})
     local = draw(st.sampled_from([None, None, None, 0.0, 0.2, 2.0, 7.0]))
+    if drop in ('close', 'reset') and not lossy and draw(st.integers(0, 2)) == 0:
+        # the node is reachable again at once: the automatic reconnect succeeds - possibly while the user shuts down
+        return {'kind': 'session', 'callers': callers, 'plan': plan, 'local_disconnect': local, 'reconnect_ok': True,
+                'schedule': draw(st.lists(st.integers(0, 4), min_size=10, max_size=250))}
     if not lossy and draw(st.integers(0, 7)) == 0:
         # a slow node: the reply to the first describe (during connect) takes several seconds, but less than the time-out
         return {'kind': 'session', 'callers': callers, 'plan': plan, 'local_disconnect': None, 'describe_delay': draw(st.sampled_from([2.0, 4.5, 6.5, 8.5])),
@@ -218,7 +222,7 @@ class World:
                 self.dropped = item['how']
                 self.drop_time = dsched.v_time()
                 self.drop_mark = len(s.trace)
-                self.refuse = True      # reconnect attempts are refused from now on
+                self.refuse = not self.case.get('reconnect_ok')      # reconnect attempts are refused from now on (or succeed)
                 if item['how'] == 'close':
                     peer.closed = True
                     peer.sock.peer_close()
